@@ -27,14 +27,6 @@ def parseQuote (s : String) : Option Char :=
   | some [n] => some (Char.ofNat n)
   | _ => none
 
-/-- the instance of the unicode tables the harness stays inside: ASCII plus a fixed pool (cmd/c18 `pool`) -/
-def poolLetters : List Nat := [0xe9, 0xc9, 0xdf, 0x1c6, 0x17f, 0x212a, 0x131, 0x3042, 0x6f22, 0x3a9, 0x436]
-def poolDigits : List Nat := [0x663, 0xff13]
-
-def poolClasses : Classes where
-  isLetter c := ('a' ≤ c && c ≤ 'z') || ('A' ≤ c && c ≤ 'Z') || poolLetters.contains c.toNat
-  isDigit c := ('0' ≤ c && c ≤ '9') || poolDigits.contains c.toNat
-
 def kindName : Kind → String
   | .eof => "$" | .uncategorized => "UNCAT" | .rune _ => "CH"
   | .identifier => "IDENTIFIER" | .string => "STRING" | .integer => "INTEGER" | .float => "FLOAT"
@@ -182,7 +174,7 @@ def c18 (cmd : String) (args : List String) : String :=
     | _, _ => bad
   | "scan", [m, s] =>
     match parseMode m, unhexChars s with
-    | some m, some s => showResult (scan poolClasses m s)
+    | some m, some s => showResult (scan unicodeClasses m s)
     | _, _ => bad
   | "opx", l => opx l
   | "sel", l => selx l
